@@ -67,6 +67,11 @@ class RunModel:
             pre = self.builder.events(effs[:main_i])
             post = self.builder.events(effs[main_i + 1:])
             loop_ev = self.builder.loop_event(L, ()) if L.kind == 'index' else Ev('loop', f'loop run:{L.lineno}', L.lineno, loop=L, raw=L)
+            if not post:
+                # nothing follows the stepping loop on this path: leaving run() from inside the loop is leaving the loop
+                for p in L.paths:
+                    if p.exit == 'return':
+                        p.exit = 'break'
             bodies = [BodyPath(p, self.builder.events(p.effects, tuple(p.guards))) for p in L.paths]
             fresh = None
             for g in o.state.guards:
